@@ -142,6 +142,13 @@ package rueidis
 //@ sweep C15 message.go exclude=RedisMessage.serialize,RedisMessage.unmarshalView,RedisMessage.cachesize,RedisMessage.CacheSize,RedisMessage.CacheMarshal,RedisMessage.CacheUnmarshalView,RedisResult.String,RedisMessage.String,prettyRedisResult.MarshalJSON,prettyRedisMessage.MarshalJSON,prettyRedisMessage.string,prettyRedisMessage.values
 //@ typeinv RedisError (self.bytes != nil || self.array != nil) ==> (0 <= self.intlen && self.intlen < 140737488355328)
 
+// The coordinate pair of a GEOSEARCH ... WITHCOORD entry arrives as two doubles (RESP3) or two bulk strings (RESP2); both
+// are the decimal text of the coordinate and both must decode (C16: "in both the RESP2 and RESP3 reply shapes").
+// ran(cord): this iteration went through the coordinates branch.
+//@ func RedisMessage.AsGeosearch
+//@   safety C15
+//@   assert [C16 coordinates-decode-in-both-reply-shapes] at append: (ran(cord) && (cord[0].typ == ',' || cord[0].typ == '$' || cord[0].typ == '+') && (cord[1].typ == ',' || cord[1].typ == '$' || cord[1].typ == '+')) ==> (loc.Longitude == first(util.ToFloat64(cord[0].string())) && loc.Latitude == first(util.ToFloat64(cord[1].string())))
+
 //@ func RedisMessage.AsXRangeSlice
 //@   safety C15
 //@   loop 0: invariant [C15] len(fieldValues) == i && cap(fieldValues) * 2 <= len(fieldArray)
